@@ -36,6 +36,7 @@ type TransSpec struct {
 	InPlace    bool     // [ext:T07] byte-buffer code: slice parameters written in place are handed back, bytestring type parameters, package-level tables, range over a slice written in place (gen/trans_ext07.go)
 	Std        []string // [ext:T07] standard-library functions translated through their models in Lib/GoSemStd.v (gen/trans_ext07.go)
 	Identity   []string // [ext:T07] functions of the package translated as the identity on byte lists (unsafe string <-> []byte casts)
+	Str17      bool     // [ext:T17] rune-aware string code: + / == on strings, range over a string, []rune, strings.Repeat, strings.Builder (gen/trans_ext17.go)
 	T15        T15Spec  // [ext:T15] (gen/trans_ext15.go) byte-sequence type parameters, real imports, error kinds, out-parameters
 	// [ext:T08] (gen/trans_ext08.go) -------------------------------------------------------------------------------
 	Stubs         map[string]string // import path -> declarations (Go source) of a foreign package, as far as the code uses it
@@ -194,6 +195,9 @@ func (stubImporter) Import(path string) (*types.Package, error) {
 		return types.Unsafe, nil
 	}
 	if p := import08(path); p != nil { // [ext:T08] TransSpec.Stubs, packages of the translated module
+		return p, nil
+	}
+	if p := stubPackage17(path); p != nil { // [ext:T17] strings.Repeat, strings.Builder: typed stubs
 		return p, nil
 	}
 	if p := stubPackage07(path); p != nil { // [ext:T07] typez.StrOrBytes, strconv.AppendUint, unicode/utf8, unicode/utf16: typed stubs
@@ -378,6 +382,7 @@ func Translate(repo string, spec TransSpec) (out string, err error) {
 	t.seqInit(spec, tpkg, p.Files) // [seq]
 	t.setup20(p, tpkg, spec)       // [ext:T20]
 	t.setup07(spec)                // [ext:T07]
+	t.setup17(spec)                // [ext:T17]
 	t.setup08(spec)                // [ext:T08]
 	t.setup09(spec)                // [ext:T09]
 	t.setup15(spec)                // [ext:T15]
